@@ -5,7 +5,9 @@
 use proc_macro2::TokenStream;
 use quote::quote;
 
-use super::super::super::conversions::{BinOpEmitKind, ConversionContext, determine_binop_plan, determine_conversion};
+use super::super::super::conversions::{
+    BinOpEmitKind, ConversionContext, NumericConversion, determine_binop_plan, determine_conversion,
+};
 use super::super::super::expr::{BinOp, IrCallArg, IrExprKind, TypedExpr, VarAccess, VarRefKind};
 use super::super::super::types::{IrType, Mutability};
 use super::super::{EmitError, IrEmitter};
@@ -156,6 +158,13 @@ impl<'a> IrEmitter<'a> {
         let plan = determine_binop_plan(op, left, right);
         let l = plan.lhs_conv.apply(l_raw);
         let r = plan.rhs_conv.apply(r_raw);
+        // `x as f64 < y` does not parse in Rust (`<` after a cast is read as the start of generic arguments), so an
+        // int operand promoted for a mixed `<` / `<=` comparison is parenthesized as a whole.
+        let l = if matches!(plan.lhs_conv, NumericConversion::ToFloat) && matches!(op, BinOp::Lt | BinOp::Le) {
+            quote! { (#l) }
+        } else {
+            l
+        };
 
         match plan.emit {
             BinOpEmitKind::StdlibCall { path } => Ok(quote! { #path(#l, #r) }),
